@@ -263,7 +263,8 @@ Definition ropt_eqb (a b : res (option tree)) : bool :=
 
 
 def defect_probes():
-    """replay the witnesses of the two recorded defects; tells which behaviour the tree under test has"""
+    """corpus: replay the witnesses of the two recorded defects (fixed in /repo by 9ee6a19 and 261d5a9);
+    a defect that shows again is a VIOLATION unless its finding is (re)opened"""
     g = FAMILY[0][1]
     s = ISLaSolver(g, 'forall <d> d in start: d = "1"')
     r = guarded(lambda: s.repair("x12", 0.5), 20)
@@ -305,17 +306,22 @@ def run(run):
     elif notop_defect:
         prop_fail.append({"clause": "repair returns an input violating the constraint", "witness":
                           {"grammar": "digits", "constraint": "false", "input": "x12"}})
-    SOK, FX = g_bool(not safe_defect), g_bool(not notop_defect)
+    # model switches: a finding that is not `open` (fixed / never recorded) FORCES the repaired model,
+    # so a regression shows up as a disagreement / clause failure; only an open finding may switch the
+    # model to the defective behaviour observed on its witness
+    SOK = g_bool(not (safe_defect and "safe-api" in findings))
+    FX = g_bool(not (notop_defect and "repair-no-constant" in findings))
+    run.cov["model_switches"] = {"safe_ok": SOK, "fix_notop": FX}
 
     n_inputs = 40 if thorough else 10
-    n_repair = 12 if thorough else 3
+    n_repair = 12 if thorough else 2
     n_mutate = 4 if thorough else 1
     fix_to = 0.4
     cases_a, meta_a = [], []          # check / parse
     shards_b, meta_b = [], []         # repair / mutate (one shard per call: own tables)
     cases_c, meta_c = [], []          # returned trees: wf_treeb / closed / eqv
     solvers = 0
-    t_budget = time.time() + (900 if thorough else 75)
+    t_budget = time.time() + (900 if thorough else 50)
 
     for gname, gsrc, unamb, constraints in FAMILY:
         for phi in constraints:
@@ -446,11 +452,11 @@ def run(run):
                         if do_mut:
                             mut_left -= 1; hist["mutate_calls"] += 1
                             random.seed(rng.randrange(1 << 30))
-                            r = guarded(lambda: solver.mutate(inp_tree, 1, 3, fix_to), 12)
+                            r = guarded(lambda: solver.mutate(inp_tree, 1, 3, fix_to), 12 if thorough else 6)
                         else:
                             rep_left -= 1; hist["repair_calls"] += 1
                             random.seed(rng.randrange(1 << 30))
-                            r = guarded(lambda: solver.repair(inp_tree, fix_to), 12)
+                            r = guarded(lambda: solver.repair(inp_tree, fix_to), 12 if thorough else 6)
                     what = "mutate" if do_mut else "repair"
                     if r[0] == "hang":
                         hist[what + "_hang"] += 1      # non-termination / long search: not an outcome to compare
@@ -482,7 +488,7 @@ def run(run):
                             f"Definition SB{kx} : list (tree * res tree) := {sb}.\n"
                             f"Definition SM{kx} : list (tree * bool) := {sm}.\n"
                             f"Definition MU{kx} : list (res tree) := {mu}.\nDefinition INP{kx} := {g_tree(inp_tree)}.\n")
-                    if kx % 12 == 0:
+                    if kx % 6 == 0:
                         shards_b.append((MODEL_DEFS, []))
                     shards_b[-1] = (shards_b[-1][0] + defs, shards_b[-1][1] + [case])
                     meta_b.append(dict(w, call=what, impl=obs[:300], n_eval=len(tr.ev), n_abstractions=sum(len(x[1]) for x in tr.abs),
@@ -541,7 +547,7 @@ def run(run):
         bad, dt = lib.coq_run_shards("c18b", "Api", "fun b : bool => b", shards_b)
         run.cov["coq_seconds_repair_mutate"] = round(dt, 1)
         for k, i in bad:
-            disagreements.append(dict(meta_b[12 * k + i], kind="model != implementation (repair/mutate trace)"))
+            disagreements.append(dict(meta_b[6 * k + i], kind="model != implementation (repair/mutate trace)"))
     except RuntimeError as e:
         run.violation({"kind": "correspondence-not-evaluable", "obligation": "Api.v repair/mutate cases", "error": str(e)[-1500:]},
                       found_input=False)
